@@ -251,6 +251,22 @@ def run(tier: str, seed: int) -> int:
             for h in HELPERS:
                 neg.append(("outer", h, "fn", h, "helper"))
                 counts["helper_negative"] += 1
+            # trait impls are public surface too: a trait feature that was not requested must not be implemented
+            trait_probe = {
+                "Debug": "fn needs<T: core::fmt::Debug>() {} needs::<E>();",
+                "Display": "fn needs<T: core::fmt::Display>() {} needs::<E>();",
+                "FromStr": "fn needs<T: core::str::FromStr>() {} needs::<E>();",
+                "Into": "fn needs<T: core::convert::Into<i16>>() {} needs::<E>();",
+                "IntoStr": "fn needs<T: core::convert::Into<&'static str>>() {} needs::<E>();",
+                "TryFrom": "fn needs<T: core::convert::TryFrom<i16>>() {} needs::<E>();",
+            }
+            for tf, stmt in trait_probe.items():
+                if tf not in d.cfg.feats:
+                    neg.append(("inner", tf, "trait", stmt, "not-requested"))
+                    counts["trait_negative"] = counts.get("trait_negative", 0) + 1
+                else:
+                    pos["inner"].append(stmt.replace("fn needs", "fn needs_%s" % tf.lower()).replace("needs::<E>", "needs_%s::<E>" % tf.lower()))
+                    counts["positive"] += 1
 
             def fn_block(name, stmts, indent):
                 if not stmts:
@@ -266,12 +282,13 @@ def run(tier: str, seed: int) -> int:
                 counts["negative"] += 1
                 nid_next = nid[0] + 1
                 here2 = "crate::k%06d" % nid_next
-                stmt = probe_expr(kind, PATHS[loc], name, f, False)
+                stmt = name if kind == "trait" else probe_expr(kind, PATHS[loc], name, f, False)
                 blocks = {"inner": "", "outer": "", "root": ""}
                 blocks[loc] = fn_block("probe", [stmt], {"inner": "        ", "outer": "    ", "root": ""}[loc])
                 new_item(d.body(here2, blocks["inner"], blocks["outer"], blocks["root"]), "reject",
-                         {"def": d.describe(), "probe": stmt, "location": loc, "item": name, "vis": vis,
-                          "why": "item with visibility %r must not be reachable from %s" % (vis, loc)})
+                         {"def": d.describe(), "probe": stmt, "location": loc, "item": f if kind == "trait" else name, "vis": vis,
+                          "why": ("trait %s was not requested and must not be implemented for the enum" % f) if kind == "trait"
+                          else "item with visibility %r must not be reachable from %s" % (vis, loc)})
             # external probes against the library copy
             lib_table = d.items(lib_path)
             lev = d.enum_vis(lib_path)
@@ -384,6 +401,7 @@ def run(tier: str, seed: int) -> int:
             "negative_probe_items": counts["negative"],
             "helper_name_negative_probes": counts["helper_negative"],
             "default_name_negative_probes": counts["default_name_negative"],
+            "unrequested_trait_negative_probes": counts.get("trait_negative", 0),
             "item_location_pairs": counts["by_location"],
             "verdicts_from_isolated_recompilation": alone,
             "expansions_scanned_for_public_surface": scanned,
